@@ -184,7 +184,7 @@ def ufunc_case(draw, tier, kinds=("unary", "ragged", "scalar", "column")):
     global _SC
     if _SC is None:
         _SC = scalar_st()
-    a = draw(gen.ragged(tier, dts=gen.C04_DT))
+    a = draw(gen.ragged(tier, dts=gen.C04_DT, wide=True))
     lens = a["lens"]
     kind = draw(st.sampled_from(kinds))
     case = {"a": a, "kind": kind, "la": draw(st.sampled_from(LAZY_CHOICES)), "lb": 0, "b": None, "side": "right"}
@@ -197,13 +197,13 @@ def ufunc_case(draw, tier, kinds=("unary", "ragged", "scalar", "column")):
         case["side"] = draw(st.sampled_from(["left", "right"]))
         if kind == "ragged":
             dt = draw(st.sampled_from(gen.C04_DT))
-            case["b"] = {"dt": dt, "vals": draw(gen.flat_values(dt, sum(lens)))}
+            case["b"] = {"dt": dt, "vals": draw(gen.flat_values(dt, sum(lens), wide=True))}
             case["lb"] = draw(st.sampled_from(LAZY_CHOICES))
         elif kind == "scalar":
             case["b"] = draw(_SC)
         else:
             dt = draw(st.sampled_from(gen.C04_DT))
-            case["b"] = {"dt": dt, "vals": draw(gen.flat_values(dt, len(lens)))}
+            case["b"] = {"dt": dt, "vals": draw(gen.flat_values(dt, len(lens), wide=True))}
     case["op"] = name
     case["spell"] = draw(st.sampled_from(["ufunc", "operator"])) if opname else "ufunc"
     return case
